@@ -99,6 +99,23 @@ def run(chk):
                   "sub/svc_b.py": '# <block name="b" check-lua="%s">\n40\n# </block>\n' % script,
                   "sub/dir/svc_c.py": '# <block name="c" check-lua="%s">\n40\n# </block>\n# <block name="d" check-lua="%s">\n40\n# </block>\n' % (script, script)}
         inputs.append(("lua-state", lfiles, None, [], {}, "report"))
+        # (4) affects contexts in which one block name is modified in several files (Affects.tla cases): the index of
+        #     modified named blocks is built from a hash map of files, whose order changes from process to process
+        from props import affects_replay as ar
+        ares = vlib.run_tlc("MC_Affects", timeout=1500, heap="8g")
+        chk.add_tlc(ares, "MC_Affects")
+
+        def shared_name(c):
+            mods = {}
+            for b in c["blocks"]:
+                if b["mod"] == "content" and b["name"] != "-":
+                    mods.setdefault(b["name"], set()).add(b["file"])
+            return any(len(v) > 1 for v in mods.values()) and any(b["refs"] and b["mod"] == "content" for b in c["blocks"])
+        acases = [c for c in ares.cases if shared_name(c)]
+        rng.shuffle(acases)
+        for i, c in enumerate(acases[:10 if quick else 120]):
+            texts, adiff, _ = ar.concretize(c, i)
+            inputs.append(("affects%d" % i, texts, {"all": adiff}, [], {}, "report"))
         chk.exhaustive = False
         cases, meta = [], {}
         for name, files, sec, args, env, exp in inputs:
